@@ -297,12 +297,25 @@ int64_t evaluate_incdec(
         } else {
             // 整数型
             int64_t old_value = var->value;
+            int64_t new_value = old_value;
 
             if (node->op == "++") {
-                var->value += 1;
+                new_value += 1;
             } else if (node->op == "--") {
-                var->value -= 1;
+                new_value -= 1;
             }
+            // same conversion as an assignment: a negative result becomes 0
+            // for an unsigned variable, any other value outside the declared
+            // type is a range error
+            if (var->is_unsigned && new_value < 0) {
+                new_value = 0;
+            }
+            if (!var->is_pointer) {
+                interpreter.check_type_range(var->type, new_value,
+                                             node->left->name,
+                                             var->is_unsigned);
+            }
+            var->value = new_value;
 
             if (node->node_type == ASTNodeType::AST_PRE_INCDEC) {
                 return var->value;
